@@ -23,34 +23,51 @@ open Oryx Oryx.Gen.Websocket
 
 /-! ### primitives -/
 
+theorem take_length_eq_iff (l : Bytes) (n : Nat) : (l.take n).length = n ↔ n ≤ l.length := by
+  rw [List.length_take]; omega
+
+/-- `readN`/`skipN` test "are there `n` bytes" on the taken prefix (linear time in the oracle); this is
+the same as comparing with the input length. -/
+theorem readN_eq (n : Nat) (s : RState) :
+    readN n s = if n ≤ s.input.length then .ok (s.input.take n) { s with input := s.input.drop n }
+                else .fail .ueof { s with input := [] } := by
+  unfold readN
+  simp only [take_length_eq_iff]
+
+theorem skipN_eq (n : Nat) (s : RState) :
+    skipN n s = if n ≤ s.input.length then .ok () { s with input := s.input.drop n }
+                else .fail .eof { s with input := [] } := by
+  unfold skipN
+  simp only [take_length_eq_iff]
+
 theorem readN_ok (n : Nat) (s : RState) (h : n ≤ s.input.length) :
     readN n s = .ok (s.input.take n) { s with input := s.input.drop n } := by
-  simp [readN, h]
+  simp [readN_eq, h]
 
 theorem readN_short (n : Nat) (s : RState) (h : s.input.length < n) :
     readN n s = .fail .ueof { s with input := [] } := by
-  simp [readN, Nat.not_le.mpr h]
+  simp [readN_eq, Nat.not_le.mpr h]
 
 theorem readHdr_ok (s : RState) (b0 b1 : UInt8) (rest : Bytes) (h : s.input = b0 :: b1 :: rest) :
     readHdr s = .ok (decodeHdr b0 b1)
       { s with input := rest, readRemaining := wrap64 (decodeHdr b0 b1).len7 } := by
-  simp [readHdr, readN, h]
+  simp [readHdr, readN_eq, h]
 
 theorem readHdr_short (s : RState) (h : s.input.length < 2) :
     readHdr s = .fail .ueof { s with input := [] } := by
-  simp [readHdr, readN, Nat.not_le.mpr h]
+  simp [readHdr, readN_eq, Nat.not_le.mpr h]
 
 /-! ### no stage of `advanceFrame` panics -/
 
 theorem readN_ne_panic (n : Nat) (s : RState) : readN n s ≠ .panic := by
-  unfold readN; split <;> simp
+  rw [readN_eq]; split <;> simp
 
 theorem skipPrev_ne_panic (s : RState) : skipPrev s ≠ .panic := by
-  unfold skipPrev skipN; repeat' split
+  unfold skipPrev; rw [skipN_eq]; repeat' split
   all_goals simp
 
 theorem readHdr_ne_panic (s : RState) : readHdr s ≠ .panic := by
-  unfold readHdr readN
+  unfold readHdr; rw [readN_eq]
   by_cases h : 2 ≤ s.input.length
   · simp only [h, if_true]
     match hi : s.input with
@@ -147,7 +164,7 @@ theorem readLength_top {h : Hdr} {s : RState} {ext rest : Bytes} (h7 : h.len7 = 
   have h8 : 8 ≤ s.input.length := by rw [hin]; simp [hext]
   have ht : s.input.take 8 = ext := by rw [hin]; exact take_append_len _ _ hext
   have hd : s.input.drop 8 = rest := by rw [hin]; exact drop_append_len _ _ hext
-  simp [readLength, h7, readN, h8, ht, hd, hneg, protoErr]
+  simp [readLength, h7, readN_eq, h8, ht, hd, hneg, protoErr]
 
 /-- A frame whose 64-bit length field has the top bit set is never accepted: `advanceFrame` does not
 return a frame for it, whatever the state, the other header fields and the bytes that follow. -/
@@ -206,13 +223,13 @@ theorem Eff.trans {a b c : RState} (h1 : Eff a b) (h2 : Eff b c) : Eff a c :=
 
 theorem readN_ok_iff {n : Nat} {s s' : RState} {p : Bytes} (h : readN n s = .ok p s') :
     n ≤ s.input.length ∧ p = s.input.take n ∧ s' = { s with input := s.input.drop n } := by
-  unfold readN at h; split at h
+  rw [readN_eq] at h; split at h
   · cases h; exact ⟨by assumption, rfl, rfl⟩
   · cases h
 
 theorem skipPrev_ok {s s' : RState} (h : skipPrev s = .ok () s') :
     Eff s s' ∧ s'.readLength = s.readLength := by
-  simp only [skipPrev, skipN] at h
+  simp only [skipPrev, skipN_eq] at h
   repeat' split at h
   all_goals first | cases h | skip
   all_goals exact ⟨⟨rfl, rfl, rfl, rfl, by simp⟩, rfl⟩
@@ -418,7 +435,8 @@ theorem readAllLoop_ne_panic (fuel : Nat) (acc : Bytes) (s : RState) (h : 2 * s.
           apply ih
           simp only [List.length_drop]
           have : 0 < min s.readRemaining.toNat s.input.length := by
-            simp only [beq_iff_eq] at hn; omega
+            simp only [beq_iff_eq, List.length_take] at hn; omega
+          simp only [List.length_take]
           omega
       · split
         · simp
@@ -454,7 +472,7 @@ theorem sendCtl_input (op : Nat) (p : Bytes) (s : RState) : (sendCtl op p s).inp
   unfold sendCtl; split <;> rfl
 
 theorem readN_inputLE (n : Nat) (s : RState) : (readN n s).inputLE s.input.length := by
-  unfold readN; split <;> simp [Out.inputLE]
+  rw [readN_eq]; split <;> simp [Out.inputLE]
 
 theorem inputLE_mono {o : Out α} {n m : Nat} (h : o.inputLE n) (hnm : n ≤ m) : o.inputLE m := by
   cases o <;> simp_all [Out.inputLE] <;> omega
@@ -464,7 +482,7 @@ theorem ite_inputLE {c : Prop} [Decidable c] {a b : Out α} {n : Nat}
   split <;> assumption
 
 theorem skipPrev_inputLE (s : RState) : (skipPrev s).inputLE s.input.length := by
-  simp only [skipPrev, skipN]; repeat' split
+  simp only [skipPrev, skipN_eq]; repeat' split
   all_goals simp [Out.inputLE]
 
 theorem readHdr_inputLE (s : RState) : (readHdr s).inputLE s.input.length := by
@@ -585,6 +603,7 @@ theorem readAllLoop_limit (L : Int) (hL : 0 < L) (fuel : Nat) (acc : Bytes) (s s
         split at h
         · cases h; exact hacc
         · rename_i hn
+          simp only [List.length_take] at hn h
           have hnpos : 0 < min s.readRemaining.toNat s.input.length := by
             simp only [beq_iff_eq] at hn; omega
           have hnle : (min s.readRemaining.toNat s.input.length : Int) ≤ s.readRemaining := by omega
